@@ -152,7 +152,7 @@ def r027(eng, rep, cc) -> None:
                 return any(isinstance(y, ast.Attribute) and y.attr == cattr for y in ast.walk(x))
             if is_len(l) and cur(r):
                 l, r, op = r, l, FLIP.get(op, op)
-            if not (cur(l) and is_len(r)) or f.cls is not None and f.cls.qual == cc.ci.qual:
+            if not (cur(l) and is_len(r)) or f.cls is not None and f.cls.qual in cc.quals:
                 continue
             n += 1
             rd = bits_to_bytes_rounding(l, cattr)
